@@ -628,10 +628,11 @@ func buildTable(x *fx) []*fn {
 			return chk(e, e2)
 		}})
 	}
-	stateP := func(all bool) param {
+	// mode 2: every setup; mode 1: plain setups + one hostile TrustedAdd + all-hostile; mode 0: as 1 without all-hostile
+	stateP := func(mode int) param {
 		p := param{Name: "state", Base: 0}
 		for i, s := range setups {
-			if all || i < nPlain || i == nPlain+1 || i == len(setups)-1 {
+			if mode == 2 || i < nPlain || i == nPlain+1 || (mode == 1 && i == len(setups)-1) {
 				p.Vals = append(p.Vals, val{C: s.name, V: s.run})
 			}
 		}
@@ -661,7 +662,7 @@ func buildTable(x *fx) []*fn {
 	const ins = "crypto.(*blsThresholdSignatureInspector)."
 	badOrig := func(o int) bool { return o < 0 || o > 2 }
 	add(&fn{Name: "ThresholdSignatureInspector.VerifyShare", Covers: []string{ins + "VerifyShare"}, Cost: 4,
-		Params: []param{objP, stateP(false), origP(2), shareP(2)},
+		Params: []param{objP, stateP(1), origP(2), shareP(2)},
 		Rej:    func(a []any) bool { return badOrig(in(a[2])) },
 		Call: func(a []any) res {
 			o, err := mk(a)
@@ -672,7 +673,7 @@ func buildTable(x *fx) []*fn {
 			return res{err: err, verdict: verd(ok)}
 		}})
 	add(&fn{Name: "ThresholdSignatureInspector.VerifyThresholdSignature", Covers: []string{ins + "VerifyThresholdSignature"}, Cost: 4,
-		Params: []param{objP, stateP(false), bytesP("thresholdSignature", x.thrSig, true, true, val{C: "a-share", V: sh[0], Rej: true})},
+		Params: []param{objP, stateP(1), bytesP("thresholdSignature", x.thrSig, true, true, val{C: "a-share", V: sh[0], Rej: true})},
 		Call: func(a []any) res {
 			o, err := mk(a)
 			if err != nil {
@@ -682,7 +683,7 @@ func buildTable(x *fx) []*fn {
 			return res{err: err, verdict: verd(ok)}
 		}})
 	add(&fn{Name: "ThresholdSignatureInspector.EnoughShares", Covers: []string{ins + "EnoughShares"}, NoBase: true,
-		Params: []param{objP, stateP(true)},
+		Params: []param{objP, stateP(2)},
 		Call: func(a []any) res {
 			o, err := mk(a)
 			if err != nil {
@@ -691,7 +692,7 @@ func buildTable(x *fx) []*fn {
 			return res{verdict: verd(o.EnoughShares())}
 		}})
 	add(&fn{Name: "ThresholdSignatureInspector.HasShare", Covers: []string{ins + "HasShare"}, NoBase: true,
-		Params: []param{objP, stateP(true), origP(0)},
+		Params: []param{objP, stateP(2), origP(0)},
 		Rej:    func(a []any) bool { return badOrig(in(a[2])) },
 		Call: func(a []any) res {
 			o, err := mk(a)
@@ -721,7 +722,9 @@ func buildTable(x *fx) []*fn {
 		return res{out: "then-ThresholdSignature-ok"}
 	}
 	add(&fn{Name: "ThresholdSignatureInspector.TrustedAdd", Covers: []string{ins + "TrustedAdd"}, Cost: 4, NoBase: true, NoRej: true,
-		Params: []param{objP, stateP(true), origP(2), shareP(2)},
+		// the follow-up reconstruction starts from states that are not already broken: the
+		// all-hostile pools belong to the domain of ThresholdSignature itself
+		Params: []param{objP, stateP(0), origP(2), shareP(2)},
 		Call: func(a []any) res {
 			o, err := mk(a)
 			if err != nil {
@@ -737,7 +740,7 @@ func buildTable(x *fx) []*fn {
 			return r
 		}})
 	add(&fn{Name: "ThresholdSignatureInspector.VerifyAndAdd", Covers: []string{ins + "VerifyAndAdd"}, Cost: 6,
-		Params: []param{objP, stateP(true), origP(2), shareP(2)},
+		Params: []param{objP, stateP(0), origP(2), shareP(2)},
 		Rej:    func(a []any) bool { return badOrig(in(a[2])) },
 		Call: func(a []any) res {
 			o, err := mk(a)
@@ -755,7 +758,7 @@ func buildTable(x *fx) []*fn {
 			return res{verdict: verd(ok), out: r.out}
 		}})
 	add(&fn{Name: "ThresholdSignatureInspector.ThresholdSignature", Covers: []string{ins + "ThresholdSignature"}, Cost: 4, NoBase: true,
-		Params: []param{objP, stateP(true)},
+		Params: []param{objP, stateP(2)},
 		Call: func(a []any) res {
 			o, err := mk(a)
 			if err != nil {
@@ -772,7 +775,7 @@ func buildTable(x *fx) []*fn {
 			return res{err: err, out: fmt.Sprintf("len%d", len(s2))}
 		}})
 	add(&fn{Name: "ThresholdSignatureParticipant.SignShare", Covers: []string{"crypto.(*blsThresholdSignatureParticipant).SignShare"},
-		Params: []param{stateP(true)},
+		Params: []param{stateP(2)},
 		Call: func(a []any) res {
 			o, err := mk([]any{"p", a[0]})
 			if err != nil {
